@@ -63,10 +63,10 @@ Proof. vm_compute. reflexivity. Qed.
 
 (* ---------- the manager: two datasets in the collection (one with coordinates), one outside ---------- *)
 Definition p1 : cid := (1, 0).  Definition w1 : cid := (1, 1).
-Definition D0 := mkds 0 true true 2 [(0, 0); a] [(0, 0)] [] [] [].
+Definition D0 := mkds 0 true true 2 [(0, 0); a] [(0, 0)] [] [] [] [].
 Definition D1 := mkds 1 true true 2 [p1; w1; b] [p1; w1] [w1]
-                      [mklink 1002 [p1] w1 (mkfn 2 [-1]); mklink 1003 [w1] p1 (mkfn 2 [-1])] [].
-Definition D2 := mkds 2 false false 2 [(2, 0); c] [(2, 0)] [] [] [].
+                      [mklink 1002 [p1] w1 (mkfn 2 [-1]); mklink 1003 [w1] p1 (mkfn 2 [-1])] [] [].
+Definition D2 := mkds 2 false false 2 [(2, 0); c] [(2, 0)] [] [] [] [].
 Definition s0 := recompute (mkstate [D0; D1; D2] [] 0%nat false).
 
 Definition same_ab := mkent 0 true None [(mklink 0 [a] b (mkfn 0 [1]), Some (mkfn 0 [1]))].
@@ -75,28 +75,31 @@ Definition p_to_c := mkent 1 false None [(mklink 10 [p1] c (mkfn 1 [2]), None)].
 
 Lemma D0_wf : ds_wf D0.
 Proof.
-  unfold ds_wf, D0. simpl. split; [|split; [|split]].
+  unfold ds_wf, D0, comps, der_cids. simpl. split; [|split; [|split; [|split]]].
   - intros x [H|[H|[]]]; subst; reflexivity.
   - intros x [H|[]]; subst; simpl; auto.
+  - intros l [].
   - intros l [].
   - auto.
 Qed.
 
 Lemma D1_wf : ds_wf D1.
 Proof.
-  unfold ds_wf, D1. simpl. split; [|split; [|split]].
+  unfold ds_wf, D1, comps, der_cids. simpl. split; [|split; [|split; [|split]]].
   - intros x [H|[H|[H|[]]]]; subst; reflexivity.
   - intros x [H|[H|[]]]; subst; simpl; auto.
   - intros l [H|[H|[]]]; subst l; simpl;
       (split; [discriminate | split; [intros x [Hx|[]]; subst; simpl; auto | auto]]).
+  - intros l [].
   - auto.
 Qed.
 
 Lemma D2_wf : ds_wf D2.
 Proof.
-  unfold ds_wf, D2. simpl. split; [|split; [|split]].
+  unfold ds_wf, D2, comps, der_cids. simpl. split; [|split; [|split; [|split]]].
   - intros x [H|[H|[]]]; subst; reflexivity.
   - intros x [H|[]]; subst; simpl; auto.
+  - intros l [].
   - intros l [].
   - intros; discriminate.
 Qed.
@@ -139,7 +142,7 @@ Example hist_trace :
 Proof. vm_compute. reflexivity. Qed.
 
 (* a boolean checker for valid_history, so that validity of a concrete history is a computation *)
-Definition live_b (s : state) (x : cid) : bool := existsb (fun d => d_member d && mem x (d_own d)) (s_data s).
+Definition live_b (s : state) (x : cid) : bool := existsb (fun d => d_member d && mem x (comps d)) (s_data s).
 Definition entry_live_b (s : state) (en : entry) : bool :=
   forallb (fun p => forallb (live_b s) (link_cids (fst p))) (e_links en).
 Definition valid_op_b (s : state) (o : op) : bool :=
@@ -195,6 +198,64 @@ Proof.
   destruct s0_good as (H1 & H2 & H3).
   exact (Lemmas.manager_inv_reachable s0 hist H1 (fun _ => H2) hist_valid).
 Qed.
+
+(* ---------- derived components: removing an input removes the derived attribute and every link touching it ---------- *)
+Definition x1 : cid := (1, 2).  Definition y1 : cid := (1, 6).  Definition z2 : cid := (2, 2).
+Definition E1 := mkds 1 true true 2 [(1, 0); x1] [(1, 0)] [] [] [mklink 2001 [x1] y1 (mkfn 0 [2])] [].   (* y = 2x *)
+Definition E2 := mkds 2 true true 2 [(2, 0); z2] [(2, 0)] [] [] [] [].
+Definition t0 := recompute (mkstate [E1; E2] [] 0%nat false).
+Definition z_to_y := mkent 0 false None [(mklink 0 [z2] y1 (mkfn 1 [-1]), Some (mkfn 1 [-1]))].     (* touches y, not x *)
+Definition casc : list op := [ AddLink z_to_y; RemoveComponent 1 x1 ].
+
+Lemma E1_wf : ds_wf E1.
+Proof.
+  unfold ds_wf, E1, comps, der_cids. simpl. split; [|split; [|split; [|split]]].
+  - intros x [H|[H|[H|[]]]]; subst; reflexivity.
+  - intros x [H|[]]; subst; simpl; auto.
+  - intros l [].
+  - intros l [H|[]]; subst l; simpl. split; [discriminate|]. intros x [Hx|[]]; subst; simpl; auto.
+  - auto.
+Qed.
+
+Lemma E2_wf : ds_wf E2.
+Proof.
+  unfold ds_wf, E2, comps, der_cids. simpl. split; [|split; [|split; [|split]]].
+  - intros x [H|[H|[]]]; subst; reflexivity.
+  - intros x [H|[]]; subst; simpl; auto.
+  - intros l [].
+  - intros l [].
+  - auto.
+Qed.
+
+Lemma t0_good : wf t0 /\ fresh t0 /\ s_delay t0 = 0%nat.
+Proof.
+  apply Lemmas.manager_init.
+  - simpl. constructor; [simpl; intuition; discriminate|]. constructor; [simpl; tauto|constructor].
+  - intros d [H|[H|[]]]; subst d. apply E1_wf. apply E2_wf.
+Qed.
+
+(* dataset 1 lists its own derived y at depth 1; after the link both datasets see across; removing x takes y with
+   it, the link (which never mentioned x) is dropped and nothing is derivable any more *)
+Example casc_trace :
+  trace t0 casc =
+  [ (0, [0], [(1, y1, 1%nat); (1, z2, 2%nat); (2, y1, 1%nat)]);
+    (0, [], []) ].
+Proof. vm_compute. reflexivity. Qed.
+
+Example casc_initial_table : flat_map (fun d => map (fun kv => (d_id d, fst kv, fst (snd kv))) (d_tbl d)) (s_data t0)
+                             = [(1, y1, 1%nat)].
+Proof. vm_compute. reflexivity. Qed.
+
+Example casc_valid : valid_history t0 casc.
+Proof. apply valid_history_b_ok. vm_compute. reflexivity. Qed.
+
+Example casc_reads :
+  let s := fst (step t0 (AddLink z_to_y)) in
+  let env := fun c : cid => if cid_eqb c x1 then 5 else if cid_eqb c z2 then 7 else 0 in
+  map (fun d => (read_ds d env y1, read_ds d env z2, read_ds d env x1)) (s_data s)
+  = [ (Some 10, Some (-9), Some 5);       (* dataset 1: y = 2x (its own component), z = 1 - y *)
+      (Some (-6), Some 7, None) ].        (* dataset 2: y = 1 - z, x not reachable (y -> x has no link) *)
+Proof. vm_compute. reflexivity. Qed.
 
 (* wire: one discover case and one small history through run_case *)
 Eval vm_compute in run_case (T 2 [T 0 [enc_cid a];
